@@ -46,6 +46,14 @@ type Arg struct {
 	Typ string `json:"t,omitempty"`
 }
 
+// goTypes are the element types of typed slice / map literals (Arg.Typ "[]T", "map[string]T").
+var goTypes = map[string]reflect.Type{
+	"string": reflect.TypeOf(""), "bool": reflect.TypeOf(true),
+	"int": reflect.TypeOf(int(0)), "int32": reflect.TypeOf(int32(0)), "int64": reflect.TypeOf(int64(0)),
+	"uint": reflect.TypeOf(uint(0)), "uint32": reflect.TypeOf(uint32(0)), "uint64": reflect.TypeOf(uint64(0)),
+	"float32": reflect.TypeOf(float32(0)), "float64": reflect.TypeOf(float64(0)),
+}
+
 // Convenience constructors.
 func S(s string) Arg                 { return Arg{Kind: "str", S: s} }
 func U(u uint64, typ string) Arg     { return Arg{Kind: "uint", U: u, Typ: typ} }
@@ -244,6 +252,19 @@ func (env *Env) argValue(a Arg, pt reflect.Type) (reflect.Value, error) {
 		}
 		v = r
 	case "list":
+		if et, ok := goTypes[strings.TrimPrefix(a.Typ, "[]")]; ok && strings.HasPrefix(a.Typ, "[]") {
+			// a typed slice literal: []string{"a", "b"}
+			sl := reflect.MakeSlice(reflect.SliceOf(et), 0, len(a.List))
+			for _, e := range a.List {
+				ev, err := env.argValue(e, et)
+				if err != nil {
+					return v, err
+				}
+				sl = reflect.Append(sl, ev.Convert(et))
+			}
+			v = sl
+			break
+		}
 		l := make([]any, len(a.List))
 		for i, e := range a.List {
 			ev, err := env.argValue(e, anyType)
@@ -256,6 +277,19 @@ func (env *Env) argValue(a Arg, pt reflect.Type) (reflect.Value, error) {
 		}
 		v = reflect.ValueOf(l)
 	case "strmap":
+		if et, ok := goTypes[strings.TrimPrefix(a.Typ, "map[string]")]; ok && strings.HasPrefix(a.Typ, "map[string]") {
+			// a typed map literal: map[string]int64{"w": 1}
+			mv := reflect.MakeMapWithSize(reflect.MapOf(reflect.TypeOf(""), et), len(a.Keys))
+			for i, k := range a.Keys {
+				ev, err := env.argValue(a.List[i], et)
+				if err != nil {
+					return v, err
+				}
+				mv.SetMapIndex(reflect.ValueOf(k), ev.Convert(et))
+			}
+			v = mv
+			break
+		}
 		m := make(map[string]any, len(a.Keys))
 		for i, k := range a.Keys {
 			ev, err := env.argValue(a.List[i], anyType)
@@ -441,7 +475,11 @@ func printArg(b *strings.Builder, a Arg, depth int) {
 	case "call":
 		printNode(b, a.Call, depth)
 	case "list":
-		b.WriteString("[]any{")
+		if a.Typ != "" {
+			b.WriteString(a.Typ + "{")
+		} else {
+			b.WriteString("[]any{")
+		}
 		for i, e := range a.List {
 			if i > 0 {
 				b.WriteString(", ")
@@ -450,7 +488,11 @@ func printArg(b *strings.Builder, a Arg, depth int) {
 		}
 		b.WriteString("}")
 	case "strmap":
-		b.WriteString("map[string]any{")
+		if a.Typ != "" {
+			b.WriteString(a.Typ + "{")
+		} else {
+			b.WriteString("map[string]any{")
+		}
 		for i, k := range a.Keys {
 			if i > 0 {
 				b.WriteString(", ")
